@@ -351,3 +351,55 @@ def _const_index(e: ast.expr) -> tp.Optional[int]:
     if isinstance(e, ast.UnaryOp) and isinstance(e.op, ast.USub) and isinstance(e.operand, ast.Constant) and isinstance(e.operand.value, int):
         return -e.operand.value
     return None
+
+
+def offset_accumulation(ctx: Ctx) -> None:
+    R = 'I.offset-accumulation'
+    ctx.rule(R, 'level offsets are relative to the parent: a worklist walk over the IndexLevel tree that pops (node, depth, offset) computes the absolute offset of the node '
+             'as `offset + node.offset` and hands *that accumulated value* on — as the offset of every child pushed back on the worklist and as the offset of the leaf '
+             'lookup; pushing the node\'s own relative offset (or the parent\'s) shifts every selection below the first branch at depth >= 3', floor=3)
+    prog = ctx.prog
+    n = 0
+    for cname in ('IndexLevel', 'IndexLevelGO'):
+        k = prog.cls(cname)
+        for mname, f in k.methods.items():
+            for lp in walk_local(f.node):
+                if not isinstance(lp, ast.While):
+                    continue
+                pops = [a for a in lp.body if isinstance(a, ast.Assign) and isinstance(a.targets[0], ast.Tuple) and len(a.targets[0].elts) == 3 and isinstance(a.value, ast.Call)
+                        and isinstance(a.value.func, ast.Attribute) and a.value.func.attr in ('popleft', 'pop') and all(isinstance(e, ast.Name) for e in a.targets[0].elts)]
+                if not pops:
+                    continue
+                work = norm(pops[0].value.func.value)
+                node_v, _depth_v, off_v = (e.id for e in pops[0].targets[0].elts)
+                if not any(isinstance(x, ast.Attribute) and x.attr == 'offset' and isinstance(x.value, ast.Name) and x.value.id == node_v for x in ast.walk(lp)):
+                    continue        # a walk that does not deal in offsets (rows, labels)
+                accs = [a.targets[0].id for a in ast.walk(lp) if isinstance(a, ast.Assign) and isinstance(a.targets[0], ast.Name) and isinstance(a.value, ast.BinOp)
+                        and isinstance(a.value.op, ast.Add) and {norm(a.value.left), norm(a.value.right)} == {off_v, f'{node_v}.offset'}]
+                n += 1
+                key = f'{cname}.{mname}'
+                if len(accs) != 1:
+                    ctx.bad(R, f, pops[0], f'the absolute offset `{off_v} + {node_v}.offset` is not computed once per popped node', key=key + ':accumulate')
+                    continue
+                acc = accs[0]
+                ctx.ok(R, f, pops[0], f'absolute offset = {off_v} + {node_v}.offset', key=key + ':accumulate')
+                pushes = []
+                for c in ast.walk(lp):
+                    if isinstance(c, ast.Call) and isinstance(c.func, ast.Attribute) and c.func.attr in ('append', 'extend', 'appendleft') and norm(c.func.value) == work and c.args:
+                        a0 = c.args[0]
+                        tup = a0 if isinstance(a0, ast.Tuple) else a0.elt if isinstance(a0, (ast.GeneratorExp, ast.ListComp)) else None
+                        if isinstance(tup, ast.Tuple) and len(tup.elts) == 3:
+                            pushes.append((c, tup))
+                for c, tup in pushes:
+                    n += 1
+                    good = isinstance(tup.elts[2], ast.Name) and tup.elts[2].id == acc
+                    (ctx.ok if good else ctx.bad)(R, f, c, 'children are pushed with the accumulated offset' if good else
+                                                  f'children are pushed with `{norm(tup.elts[2])}` instead of the accumulated offset: positions selected below this node are shifted',
+                                                  key=key + f':push#{pushes.index((c, tup))}')
+                lookups = [c for c in ast.walk(lp) if isinstance(c, ast.Call) and kwarg(c, 'offset') is not None]
+                for c in lookups:
+                    n += 1
+                    good = norm(kwarg(c, 'offset')) == acc
+                    (ctx.ok if good else ctx.bad)(R, f, c, 'the leaf lookup is offset by the accumulated offset' if good else
+                                                  f'the leaf lookup is offset by `{norm(kwarg(c, "offset"))}`, not by the accumulated offset', key=key + f':leaf#{lookups.index(c)}')
+    ctx.require(n >= 3, 'offset-carrying worklist walks')
